@@ -1188,22 +1188,23 @@ func TestCheck(t *testing.T) {
 	if !skip("reload-seq") {
 		runReloadSequential(t, r)
 	}
-	if !skip("reload-ext-seq") {
-		runExtSequential(t, r)
-	}
 	t2 := time.Now()
 	if !skip("hmac") {
 		runHMAC(t, r, deadline)
 	}
 	t3 := time.Now()
+	if !skip("reload-ext-seq") {
+		runExtSequential(t, r) // after the wall-budgeted HMAC part, so that it does not eat into that budget on a loaded machine
+	}
+	t4 := time.Now()
 	if !skip("reload-sched") {
 		runReloadSched(t, r)
 	}
-	t4 := time.Now()
+	t5 := time.Now()
 	if !skip("reload-ext-sched") {
 		runExtSched(t, r)
 	}
-	r.Set("wall_parts", fmt.Sprintf("tolerance=%.1fs reload-seq+ext-seq=%.1fs hmac=%.1fs reload-sched=%.1fs reload-ext-sched=%.1fs", t1.Sub(t0).Seconds(), t2.Sub(t1).Seconds(), t3.Sub(t2).Seconds(), t4.Sub(t3).Seconds(), time.Since(t4).Seconds()))
+	r.Set("wall_parts", fmt.Sprintf("tolerance=%.1fs reload-seq=%.1fs hmac=%.1fs reload-ext-seq=%.1fs reload-sched=%.1fs reload-ext-sched=%.1fs", t1.Sub(t0).Seconds(), t2.Sub(t1).Seconds(), t3.Sub(t2).Seconds(), t4.Sub(t3).Seconds(), t5.Sub(t4).Seconds(), time.Since(t5).Seconds()))
 
 	r.Set("rule", "complete finite products, one real request per element through the ingress handler wired by startServers from DSL text. "+
 		"HMAC = {secret set: 1 inline | 2 overlapping secret_ref versions | inline+version (thorough: 3 adjacent versions with an open end, 1 s tolerance)} x {header names: default | custom} x "+
@@ -1219,6 +1220,10 @@ func TestCheck(t *testing.T) {
 		"Reload = 14 credential-changing reloads of one route (Basic password changed / user removed, HMAC inline secret replaced / secret_ref value replaced / validity window closed / header names changed / tolerance narrowed, auth added to an open route (basic, hmac, forward), forward URL changed, basic<->hmac, hmac->forward) x "+
 		"{7 sequential histories of boots, reloads (also back again) and requests | under the controlled scheduler: real reloadConfig || ingress request(s) carrying the old / no (thorough: new, two requests) credential, with and without a request served before, every schedule within a preemption bound AND unbounded with sleep sets}, "+
 		"each followed, once quiescent, by the probe vector {old credential, no credential, new credential, old credential again}: judged by the reference under the configuration in force (after Reload returned true: the new one, exactly as the fresh boot of the new text is judged); an overlapping request by the old or the new configuration. "+
+		"External credential values = {site: HMAC secret (short form) | secrets{} version behind secret_ref | one of two secrets of an auth hmac block with custom header names | Basic password next to a literal second user | forward-auth URL} x "+
+		"{carrier of the value: file: ref | env: ref | vault: ref (in-memory KV API) | {file.PATH} | {env.NAME} | {$NAME} | {vars.X} over {file.} / {env.}} x {every sequence of 2 (thorough: 3) content states out of A, B, B+newline, empty, blank, missing after a boot with A} x "+
+		"{reload style: Hookaidofile byte-identical | one more comment | unrelated route toggled | byte-identical, reloaded twice (thorough: also every per-step mix of styles)}, probe vector {credential of A, of B, none, of the empty value, the credential that does not depend on the external value, A again, B again} after the boot and after every step: "+
+		"after a reload reported as applied exactly the credentials derivable from the CURRENT content authenticate (none if it is missing/empty), after a reload reported as failed the previous ones stay in force completely; a subset (quick 8 cases, thorough 81) under the controlled scheduler: rotate the content, then real reloadConfig of the unchanged file || request(s). "+
 		"A case is distinct by (family, mutation class, signed-ts point, signer, clock offset, reference verdict, observed status); non-trivial = the un-mutated request is valid at that clock "+
 		"(the mutation decides) or the case is the un-mutated request itself (clock / validity window decides)")
 	r.Assume("the virtual clock of testing/synctest is the clock the application reads (ingress.HMACAuth.Now = time.Now)")
@@ -1228,6 +1233,7 @@ func TestCheck(t *testing.T) {
 	r.Assume("requests that do not address the route (other method, letter-case variants of the path) may also be answered 404/405; 413/429 paths (body limit, rate limit) are not provoked")
 	r.Assume("reference is the most permissive reading where the statement leaves a choice (hex letter case, white space around header values, duplicate headers, percent-encoding, sign/leading zeros of the timestamp, tolerance boundary inclusive); completeness is only demanded for the unmodified request at clock = signed ts with the signing secret valid at ts-1..ts+1")
 	r.Assume("reload explorations: scheduling points are the lock / atomic operations of the runtime state, the authenticators, the queue store and the servers; code between them is taken to be thread-local (side condition: the free-running -race pass TestRace runs the same thread bodies); the auth service behind `auth forward` is an in-memory RoundTripper installed as http.DefaultTransport (the production ForwardAuth builds its own http.Client)")
+	r.Assume("external credential values: the value derivable from a content is the content itself or the content without surrounding white space (the documentation leaves the trailing newline open; completeness is demanded only where both coincide); file carriers use a per-case directory, env carriers a per-case variable of this process, vault: a KV v2 endpoint behind an in-memory http.Transport (sequential histories only); a refused reload although the content is a plain value is reported as an infrastructure error")
 	r.Assume("after a reload that WIDENS the HMAC tolerance the replay protection may refuse stale timestamps it cannot vouch for; completeness after a reload is therefore demanded only for plain credentials (Basic, API key, HMAC with clock = signed ts)")
 	if os.Getenv("C08_DEBUG") != "" {
 		var ks []string
